@@ -294,7 +294,10 @@ func (g *Gen) heapSym(h *Heap, name string) string {
 			body := ""
 			for i := len(h.base.parents) - 1; i >= 0; i-- {
 				p := h.base.parents[i]
-				app := "(" + g.heapSym(p.h, name) + " " + strings.Join(as, " ") + ")"
+				app := g.heapSym(p.h, name)
+				if len(as) > 0 {
+					app = "(" + app + " " + strings.Join(as, " ") + ")"
+				}
 				if body == "" {
 					body = app
 				} else {
